@@ -28,7 +28,7 @@ import sys
 
 from .. import ops, walker, keys
 from ..core import Violation, Precondition
-from ..domains import Domain, is_mapping, is_tree, OBJECT_KEY_FAMILIES
+from ..domains import _detach, Domain, is_mapping, is_tree, OBJECT_KEY_FAMILIES
 from . import common
 
 PROP = "C14"
@@ -62,7 +62,8 @@ LEVEL = {"quick": "fault_enumeration", "thorough": "fault_enumeration"}
 BULK = ("update", "supdate", "ior", "iand", "isub", "ixor")
 READONLY = ("get", "getd", "getitem", "in", "has_key", "minKey", "maxKey",
             "range", "len", "iter", "keys", "items", "values", "isdisjoint",
-            "mod", "ctor", "ctork", "resolve")
+            "mod", "ctor", "ctork", "resolve", "viewlen")
+_VIEW = [None]      # the lazy sequence a "viewlen" operation keeps
 
 
 def plan(rng, tier):
@@ -103,6 +104,12 @@ def plan(rng, tier):
     elif r < 0.65:
         meths = ranges.MAP_METHS if mapping else ranges.SET_METHS
         op = ranges._range_op(rng, g, meths)
+        if is_tree(kind) and not op[1].startswith("iter") and \
+                rng.random() < 0.35:
+            # a lazy sequence: the comparison fails while it is being made
+            # or measured (len / index / listing)
+            op = ["viewlen", op, rng.choice([["len"], ["idx", -1],
+                                             ["idx", 0], ["list"]])]
     elif r < 0.72:
         b = ranges._bound(rng, g, allow_special=False)
         op = [rng.choice(["minKey", "maxKey"]), b]
@@ -213,6 +220,18 @@ def _do(plan, dom, c, live):
             return ("ok", ops.listing(new, mapping))
         except Exception as e:
             return ops.norm_exc(e)
+    if name == "viewlen":
+        from . import ranges
+        _VIEW[0] = None
+        try:
+            view = ops.call_range(c, op[1], dom)
+            _VIEW[0] = view
+            r = ranges._run_probe(view, op[2])
+            if r[0] == "exc":
+                return r
+            return ("ok", None)
+        except Exception as e:
+            return ops.norm_exc(e)
     if name == "resolve":
         mapping = is_mapping(kind)
 
@@ -261,6 +280,25 @@ def _plain(lst, dom, mapping):
     if mapping:
         return [(dom.pkid(k), dom.pvid(v)) for k, v in lst]
     return [dom.pkid(k) for k in lst]
+
+
+def _plainout(out, dom):
+    """an outcome without references to key/value objects"""
+    def conv(x):
+        if type(x) is keys.HK:
+            return ("hk", x.n)
+        if type(x) is keys.TV:
+            return ("tv", x.n)
+        if isinstance(x, (list, tuple)):
+            return [conv(y) for y in x]
+        if isinstance(x, float) and x != x:
+            return "nan"
+        if isinstance(x, (str, bytes)):
+            return _detach(x)       # (a copy: the ledger counts references)
+        if isinstance(x, (int, float, bool)) or x is None:
+            return x
+        return type(x).__name__
+    return (out[0], conv(out[1]))
 
 
 def _raise():
@@ -401,6 +439,12 @@ def _one(plan, dom, cfg, ctx, n, ncmp, L0, L1, baseline, tracked, h, base):
                                  by=v.sig.get("oracle")),
                             "%r, comparison %d/%d raised: %s" % (
                                 op, n, ncmp, v.detail))
+    if op[0] == "viewlen":
+        # (the sequence object itself is not looked at again: the statement
+        # is about the CONTAINER; the unchanged pure-Python _TreeItems is dead
+        # after a step of its generator failed -- view[-1] says IndexError --
+        # and nothing in the property forbids that)
+        _VIEW[0] = None
     extra = None
     if op[0] == "update":
         extra = set((dom.pkid(ops.K(dom, kk)), dom.pvid(ops.V(dom, vv)))
